@@ -227,7 +227,23 @@ func genBatchModel(r *gen.R) *batchModel {
 		xv := p.Values[cur]
 		rank := xv.Rank()
 		feat := rank - 1 // the last axis is never the batch axis here
-		switch r.Intn(10) {
+		switch r.Intn(11) {
+		case 10: // a per-sample statistic (.., 1) combined with the sample it came from: x op max(x) along the features
+			if rank >= 2 {
+				whole := cur
+				stat := progNode{G: mon.GNode{Op: r.PickStr("ReduceMax", "ReduceMin"), Inputs: []string{whole}, Attrs: []*mon.Attr{mon.AttrInts("axes", []int64{-1}), mon.AttrI("keepdims", 1)}}, Mode: CmpIEEE}
+				isMax := stat.G.Op == "ReduceMax"
+				stat.Eval = exactEval(func(in []*ref.T) (*ref.T, error) { return ref.ReduceMaxMin(in[0], []int64{-1}, true, isMax) })
+				if add(stat, axis) {
+					column := cur
+					op := r.PickStr("Sub", "Add", "Mul")
+					ins := []string{whole, column}
+					if r.Chance(0.3) {
+						ins = []string{column, whole}
+					}
+					add(progNode{G: mon.GNode{Op: op, Inputs: ins}, Mode: CmpIEEE, Eval: exactEval(func(in []*ref.T) (*ref.T, error) { return ref.Binary(op, in[0], in[1]) })}, axis)
+				}
+			}
 		case 9: // one column per sample, stretched against a weight vector: (..,1) op (F') -> (..,F')
 			d := xv.Shape[feat]
 			col := p.addInit("col", gen.I64s(int64(r.Range(-d, d-1))))
@@ -453,9 +469,13 @@ func c16Run(c *Ctx) {
 			vals := []float64{math.NaN(), math.Inf(1), math.Inf(-1), -3e9, 3e9, 1e30, -1e30, 0, math.Copysign(0, -1), 1e-30, 88.8, -104}
 			for n := r.Range(1, 2); n > 0; n-- {
 				row := r.Intn(N)
+				allZero := r.Chance(0.25) // a sample that is zero throughout
 				for i := range t.Bits {
-					if (i/inner)%N == row && r.Chance(0.7) {
+					if (i/inner)%N == row && (allZero || r.Chance(0.7)) {
 						t.Bits[i] = ref.EncF(ref.F32, vals[r.Intn(len(vals))])
+						if allZero {
+							t.Bits[i] = 0
+						}
 					}
 				}
 				special += fmt.Sprintf(" sample %d of %q", row, k)
